@@ -4,13 +4,15 @@ import os
 from vt import core
 from vt.main import decide
 from props import c13_common as cm
-from translate import load_tr
+from translate import load_tr, proc_tr
 
-IMPORTS = """From TxV Require Import Core.Base Core.Show Model.Proc Gen.SrcLoad.
+IMPORTS = """From TxV Require Import Core.Base Core.Show Model.Proc Gen.SrcLoad Gen.SrcProc.
 Open Scope string_scope.
 Definition show_lev (e : lev) : string :=
   match e with LResolve _ => "R" | LInit _ => "I" | LProc _ => "P" | LRaise => "X" end.
 Definition show_trace (u : bool) : string := sjoin "" (map show_lev (run_phases load_phases [0%nat; 1%nat] u))."""
+
+FALSY = {"i:0", "s:", "b:False", "f:0.0"}     # canonical atom texts of falsy Python values
 
 CORPUS = os.path.join(core.VERIF, "corpus", "C13")
 
@@ -52,7 +54,9 @@ def coq_case(case, o):
         act = "AChild" if kind == "child" else "(AAtom %d)" % T.atom("i:%d" % (k if kind == "atom" else 0))
         tbl.append("(%d, %d, %s)" % (idx[p], i, act))
     ms = core.coq_list(["(%s, %s)" % t for t in trees])
-    return "%srun_models %s %s %s" % (T.lets(), regl, core.coq_list(tbl), ms), T
+    # Python-falsy values among the atoms of this case (only consulted when a translated fact is a truthiness test)
+    falsy = core.coq_list(["%d" % i for a, i in sorted(T.atoms.items(), key=lambda x: x[1]) if a in FALSY])
+    return "%srun_models src_facts %s %s %s %s" % (T.lets(), regl, falsy, core.coq_list(tbl), ms), T
 
 
 def impl_string(o, T):
@@ -65,7 +69,7 @@ def classify(case, o):
 
 
 def run(chk):
-    chk.prove([load_tr.translate])
+    chk.prove([load_tr.translate, proc_tr.translate])
     n = 600 if chk.thorough else 100
     cases = load_corpus()
     for i in range(n):
@@ -142,7 +146,8 @@ def run(chk):
                        "registration set (all / subset / none of the rules incl. abstract and OBJECT), replacement actions (atom, falsy 0, return "
                        "first child) per (processor, object), user classes on a subset of rules, plus unresolved-reference models; loaded through "
                        "metamodel_from_file/model_from_str; non-trivial = at least 3 processor calls; distinct by (grammar, model, registration, actions, user classes)")
-    chk.assumptions += ["object processors only observe their argument and return a value (no side effects on the model) - the harness processors do exactly that",
+    chk.assumptions += ["translator proc_tr.py: statement-by-statement match of call_obj_processors; the facts it extracts instantiate the model",
+                        "object processors only observe their argument and return a value (no side effects on the model) - the harness processors do exactly that",
                         "object identity is represented by ids assigned in containment pre-order before reference resolution",
                         "the linked tree and attribute metadata given to the Coq model are read from the live metamodel/model at the first processor call"]
     decide(chk, failures, disagreements)
